@@ -24,7 +24,7 @@ func verifAtoms() []string {
 	return []string{
 		"a", "b", "1", "_", "-", " ", ".", `\d`, `\D`, `\w`, `\W`, `\s`, `\S`, `\b`, `\B`, "^", "$",
 		`\n`, `\t`, `\r`, `\v`, `\f`, `\0`, `\cJ`, `\x41`, `A`, "\u00e9", "\u00a0", `\/`, `\-`, `\.`, `\$`, `\u00e9`, `\u2028`,
-		"[ab]", "[^a]", "[a-b1]", `[\s]`, `[\d_]`, `[^\s]`, `[\b]`, `[.]`, `[\-a]`, `[a\]]`, "[]", "[^]", `[\w-]`, `[\u00e9]`, `[^\S]`,
+		"[ab]", "[^a]", "[a-b1]", `[a\-b]`, `[+\-/]`, `[\S]`, `[\D]`, `[\W]`, `[^\d]`, `[\s]`, `[\d_]`, `[^\s]`, `[\b]`, `[.]`, `[\-a]`, `[a\]]`, "[]", "[^]", `[\w-]`, `[\u00e9]`, `[^\S]`,
 		"(a)", "(?:a|b)", "(a|)", "(?:)",
 	}
 }
@@ -32,7 +32,7 @@ func verifAtoms() []string {
 func verifQuants() []string { return []string{"", "*", "+", "?", "{2}", "{1,2}", "{1,}", "*?", "+?", "??"} }
 
 func verifSubjects(maxLen int) []string {
-	alpha := []string{"a", "b", "A", "1", "_", "-", " ", "\n", "\r", "\t", "\v", "\f", "\x00", "\u00a0", "\u2028", "\ufeff", "\u00e9", "\U0001d4b3", ".", "/", "]", "$"}
+	alpha := []string{"a", "b", "A", "1", "_", "-", " ", "\n", "\r", "\t", "\v", "\f", "\x00", "\u00a0", "\u2028", "\ufeff", "\u00e9", "\U0001d4b3", ".", "/", "]", "$", ",", "+", "\u202f", "\u1680", "\u2003", "\u205f", "\u3000", "\u2029", "\u0085"}
 	out := []string{""}
 	level := []string{""}
 	for l := 1; l <= maxLen; l++ {
